@@ -31,6 +31,103 @@ impl Rng {
     }
 }
 
+// ------------------------------------------------------------------------------------------
+// dictionary: literals of the library sources that the baseline tree did not have (checklib/srcdict.py writes the
+// file named by GEN_DICT: `t <hex token>` / `n <integer>` lines).  Empty on the unchanged tree: then no generator
+// below consumes a random number more or prints a line more than it did without the dictionary.
+
+static DICT: std::sync::OnceLock<(Vec<Vec<u8>>, Vec<usize>)> = std::sync::OnceLock::new();
+
+pub fn dict() -> &'static (Vec<Vec<u8>>, Vec<usize>) {
+    DICT.get_or_init(|| {
+        let mut toks = vec![];
+        let mut ints = vec![];
+        if let Ok(p) = std::env::var("GEN_DICT") {
+            if let Ok(text) = std::fs::read_to_string(&p) {
+                for line in text.lines() {
+                    if let Some(h) = line.strip_prefix("t ") {
+                        if let Some(b) = unhex(h.trim()) {
+                            toks.push(b);
+                        }
+                    } else if let Some(n) = line.strip_prefix("n ") {
+                        if let Ok(n) = n.trim().parse::<usize>() {
+                            ints.push(n);
+                        }
+                    }
+                }
+            }
+        }
+        (toks, ints)
+    })
+}
+
+/// dictionary tokens with their upper-case and title-case spellings
+fn dict_spellings() -> Vec<Vec<u8>> {
+    let mut v = vec![];
+    for t in &dict().0 {
+        v.push(t.clone());
+        v.push(t.to_ascii_uppercase());
+        v.push(t.to_ascii_lowercase());
+        let mut ti = t.to_ascii_lowercase();
+        if let Some(c) = ti.first_mut() {
+            *c = c.to_ascii_uppercase();
+        }
+        v.push(ti);
+    }
+    v.sort();
+    v.dedup();
+    v
+}
+
+fn dict_strs() -> Vec<String> {
+    dict().0.iter().filter_map(|t| String::from_utf8(t.clone()).ok()).collect()
+}
+
+/// with probability 1/5 a dictionary token of the wanted shape (never consumes randomness when the dictionary is empty)
+fn dict_tok(r: &mut Rng, ok: fn(&[u8]) -> bool) -> Option<Vec<u8>> {
+    let d = &dict().0;
+    if d.is_empty() || !r.chance(1, 5) {
+        return None;
+    }
+    let c: Vec<&Vec<u8>> = d.iter().filter(|t| ok(t)).collect();
+    if c.is_empty() {
+        None
+    } else {
+        Some((*r.pick(&c)).clone())
+    }
+}
+
+fn sh_alpha(t: &[u8]) -> bool {
+    t.iter().all(|c| c.is_ascii_alphabetic())
+}
+fn sh_alnum(t: &[u8]) -> bool {
+    t.iter().all(|c| c.is_ascii_alphanumeric())
+}
+fn sh_lang(t: &[u8]) -> bool {
+    sh_alpha(t) && (2..=8).contains(&t.len()) && t.len() != 4
+}
+fn sh_script(t: &[u8]) -> bool {
+    sh_alpha(t) && t.len() == 4
+}
+fn sh_region(t: &[u8]) -> bool {
+    (t.len() == 2 && sh_alpha(t)) || (t.len() == 3 && t.iter().all(|c| c.is_ascii_digit()))
+}
+fn sh_variant(t: &[u8]) -> bool {
+    sh_alnum(t) && ((5..=8).contains(&t.len()) || (t.len() == 4 && t[0].is_ascii_digit()))
+}
+fn sh_type(t: &[u8]) -> bool {
+    sh_alnum(t) && (3..=8).contains(&t.len())
+}
+fn sh_key(t: &[u8]) -> bool {
+    t.len() == 2 && t[0].is_ascii_alphanumeric() && t[1].is_ascii_alphabetic()
+}
+fn sh_tkey(t: &[u8]) -> bool {
+    t.len() == 2 && t[0].is_ascii_alphabetic() && t[1].is_ascii_digit()
+}
+fn sh_tag(t: &[u8]) -> bool {
+    sh_alnum(t) && (1..=8).contains(&t.len())
+}
+
 fn ops_env() -> Vec<String> {
     std::env::var("GEN_OPS")
         .unwrap_or_else(|_| "loc".to_string())
@@ -90,6 +187,7 @@ pub fn token_alphabet(full: bool) -> Vec<Vec<u8>> {
     for w in [&b"*"[..], b" ", b"\0", b"\x7f", b"\x80", b"\xff", b"a*c", b"ab cd", b"ab\0", b"\xc3\x81\xc3\x81", b"abc\xffe", b"$"] {
         t.push(w.to_vec());
     }
+    t.extend(dict_spellings());
     t.sort();
     t.dedup();
     t
@@ -124,6 +222,7 @@ fn mini_alphabet() -> Vec<Vec<u8>> {
     ]
     .iter()
     .map(|t| t.to_vec())
+    .chain(dict().0.iter().cloned())
     .collect()
 }
 
@@ -200,6 +299,9 @@ fn w<S: AsRef<[u8]>>(s: S) -> Vec<u8> {
 }
 
 fn gen_lang(r: &mut Rng) -> Vec<u8> {
+    if let Some(t) = dict_tok(r, sh_lang) {
+        return t;
+    }
     if r.chance(2, 3) {
         w(r.pick(&["en", "fr", "und", "zh", "sr", "ar", "de", "abc", "abcde", "abcdefgh", "he", "uz", "az", "ku", "mul", "mis", "zxx", "yue", "mn", "pa", "ms", "ha", "eo", "iw", "in", "ji", "jw", "mo", "sh", "tl", "no"]))
     } else if r.chance(1, 2) {
@@ -209,6 +311,9 @@ fn gen_lang(r: &mut Rng) -> Vec<u8> {
     }
 }
 fn gen_script(r: &mut Rng) -> Vec<u8> {
+    if let Some(t) = dict_tok(r, sh_script) {
+        return t;
+    }
     if r.chance(2, 3) {
         w(r.pick(&["Latn", "Cyrl", "Arab", "Hant", "Hebr", "Mong", "Zzzz", "Zyyy", "Zinh", "Hans", "Jpan", "Adlm", "Thaa", "Grek", "Deva"]))
     } else {
@@ -216,6 +321,9 @@ fn gen_script(r: &mut Rng) -> Vec<u8> {
     }
 }
 fn gen_region(r: &mut Rng) -> Vec<u8> {
+    if let Some(t) = dict_tok(r, sh_region) {
+        return t;
+    }
     if r.chance(2, 3) {
         w(r.pick(&["US", "GB", "419", "001", "RS", "AF", "CN", "ZZ", "XX", "AA", "QO", "EU", "999", "000", "150", "TW", "MN", "EG", "ME", "BU", "DD", "YU", "ZR", "UK", "SU"]))
     } else if r.chance(1, 2) {
@@ -225,6 +333,9 @@ fn gen_region(r: &mut Rng) -> Vec<u8> {
     }
 }
 fn gen_variant(r: &mut Rng) -> Vec<u8> {
+    if let Some(t) = dict_tok(r, sh_variant) {
+        return t;
+    }
     if r.chance(2, 3) {
         w(r.pick(&["macos", "valencia", "1996", "1abc", "posix", "abcde", "abcdefgh", "fonipa", "12345", "rozaj", "1606nict", "ekavsk", "zzzzz"]))
     } else if r.chance(1, 2) {
@@ -236,6 +347,9 @@ fn gen_variant(r: &mut Rng) -> Vec<u8> {
     }
 }
 fn gen_type(r: &mut Rng) -> Vec<u8> {
+    if let Some(t) = dict_tok(r, sh_type) {
+        return t;
+    }
     if r.chance(3, 4) {
         w(r.pick(&["buddhist", "gregory", "true", "latn", "h12", "abc", "foo", "bar", "hybrid", "abc12345", "123", "false", "yes", "und", "root", "zzzzzzzz", "000"]))
     } else {
@@ -243,12 +357,18 @@ fn gen_type(r: &mut Rng) -> Vec<u8> {
     }
 }
 fn gen_key(r: &mut Rng) -> Vec<u8> {
+    if let Some(t) = dict_tok(r, sh_key) {
+        return t;
+    }
     if r.chance(3, 4) {
         return w(r.pick(&["ca", "nu", "hc", "co", "1a", "kf", "zz", "ta"]));
     }
     vec![*r.pick(ALNUM), *r.pick(ALPHA)]
 }
 fn gen_tkey(r: &mut Rng) -> Vec<u8> {
+    if let Some(t) = dict_tok(r, sh_tkey) {
+        return t;
+    }
     if r.chance(3, 4) {
         return w(r.pick(&["h0", "m0", "d0", "s1", "k9", "t0", "x0", "u1"]));
     }
@@ -324,7 +444,9 @@ pub fn gen_shape(r: &mut Rng, allow_dup_keys: bool) -> Shape {
         s.x = Some(
             (0..n)
                 .map(|_| {
-                    if r.chance(1, 2) {
+                    if let Some(t) = dict_tok(r, sh_tag) {
+                        t
+                    } else if r.chance(1, 2) {
                         w(r.pick(&["a", "foo", "priv", "1", "abcdefgh", "u", "t", "x", "true", "h0", "ca"]))
                     } else {
                         rand_word(r, ALNUM, 1, 8)
@@ -422,10 +544,98 @@ fn shuffle<T>(r: &mut Rng, v: &mut Vec<T>) {
     }
 }
 
+/// a language identifier (canonical spelling: sorted distinct variants) whose text is exactly `n` bytes long, n >= 8
+fn langid_of_len(r: &mut Rng, n: usize) -> Option<Vec<Vec<u8>>> {
+    for (sc, rg) in [(false, false), (false, true), (true, false), (true, true)] {
+        let fixed = 2 + if sc { 5 } else { 0 } + if rg { 3 } else { 0 };
+        if n < fixed {
+            continue;
+        }
+        let rem = n - fixed;
+        // k variants of 5..=8 letters, each preceded by a separator: 6k <= rem <= 9k
+        let k = (rem + 8) / 9;
+        if rem != 0 && (6 * k > rem || rem > 9 * k) {
+            continue;
+        }
+        let mut lens = vec![6usize; k];
+        let mut extra = rem - 6 * k;
+        for l in lens.iter_mut() {
+            let a = extra.min(3);
+            *l += a;
+            extra -= a;
+        }
+        let mut vs: Vec<Vec<u8>> = vec![];
+        for l in lens {
+            loop {
+                let v = rand_word(r, ALNUM, l - 1, l - 1);
+                if !vs.contains(&v) {
+                    vs.push(v);
+                    break;
+                }
+            }
+        }
+        vs.sort();
+        let mut toks = vec![w("en")];
+        if sc {
+            toks.push(w("Latn"));
+        }
+        if rg {
+            toks.push(w("US"));
+        }
+        toks.extend(vs);
+        return Some(toks);
+    }
+    None
+}
+
+/// inputs whose byte length / subtag count sits at a size the sources mention (dictionary integers): n-1, n, n+1
+fn stream_sizes(ops: &[String], r: &mut Rng, out: &mut dyn Write) {
+    for &n in &dict().1 {
+        for m in [n.saturating_sub(1), n, n + 1] {
+            if m < 8 {
+                continue;
+            }
+            for style in 0..3u8 {
+                if let Some(toks) = langid_of_len(r, m) {
+                    emit_input(out, ops, &render(r, &toks, style));
+                    // the same length reached with a private-use tail
+                    let mut t2 = vec![w("en"), w("x")];
+                    let mut rem = m - 4;
+                    while rem > 0 {
+                        let l = if rem >= 11 { 9 } else if rem >= 2 && rem <= 9 { rem } else { rem - 2 };
+                        t2.push(rand_word(r, ALNUM, l - 1, l - 1));
+                        rem -= l;
+                    }
+                    emit_input(out, ops, &render(r, &t2, style));
+                }
+            }
+            // m subtags of each repeatable kind
+            for kind in 0..5usize {
+                let mut s = Shape::default();
+                s.lang = w("en");
+                match kind {
+                    0 => s.variants = (0..m).map(|_| gen_variant(r)).collect(),
+                    1 => s.u = Some(((0..m).map(|_| rand_word(r, ALNUM, 3, 8)).collect(), vec![])),
+                    2 => s.u = Some((vec![], vec![(w("ca"), (0..m).map(|_| rand_word(r, ALNUM, 3, 8)).collect())])),
+                    3 => s.t = Some((None, vec![(w("h0"), (0..m).map(|_| rand_word(r, ALNUM, 3, 8)).collect())])),
+                    _ => s.x = Some((0..m).map(|_| rand_word(r, ALNUM, 1, 8)).collect()),
+                }
+                if m <= 600 {
+                    emit_input(out, ops, &render(r, &s.tokens(), 0));
+                }
+            }
+        }
+    }
+}
+
 fn stream_wf(thorough: bool, seed: u64, out: &mut dyn Write) {
     let ops = ops_env();
     let mut r = Rng::new(seed ^ 0x5745_4C4C);
     let n = if thorough { 400_000 } else { 60_000 };
+    if !dict().1.is_empty() {
+        let mut r2 = Rng::new(seed ^ 0x53_495A_45);
+        stream_sizes(&ops, &mut r2, out);
+    }
     for i in 0..n {
         let mut s = gen_shape(&mut r, i % 10 == 0);
         if i % 97 == 5 {
@@ -495,6 +705,12 @@ pub fn mutate(r: &mut Rng, tokens: &mut Vec<Vec<u8>>) {
         b"", b"a", b"u", b"t", b"x", b"ab", b"abc", b"abcd", b"abcde", b"abcdefghi", b"1", b"12", b"123", b"1234", b"1abc", b"h0",
         b"0h", b"a.b", b"true", b"und", b"Latn", b"US", b"*", b"\xff\xfe", b"a\0c", b"toolongxx", b"ca", b"es", b"t1", b"1t",
     ];
+    let mut bad: Vec<&[u8]> = bad.to_vec();
+    for t in &dict().0 {
+        bad.push(t);
+        bad.push(t);
+    }
+    let bad: &[&[u8]] = &bad;
     let k = 1 + r.below(3);
     for _ in 0..k {
         let n = tokens.len();
@@ -542,10 +758,18 @@ fn stream_near(thorough: bool, seed: u64, out: &mut dyn Write) {
     for i in 0..n {
         let s = gen_shape(&mut r, i % 10 == 0);
         let mut toks = s.tokens();
+        if i % 2 == 1 {
+            // the well-formed identifier itself first, answered by the same process just before its near miss: an answer
+            // that depends on the previous call (a memo, a scratch buffer) shows as a wrong answer for the near miss
+            emit_input(out, &ops, &join(&toks.iter().collect::<Vec<_>>(), if i % 4 == 1 { b'-' } else { b'_' }));
+        }
         if i % 5 != 4 {
             mutate(&mut r, &mut toks);
         }
         let mut input = render(&mut r, &toks, (i % 3) as u8);
+        if i % 10 == 9 && !input.is_empty() {
+            emit_input(out, &ops, &input);
+        }
         if i % 5 >= 3 && !input.is_empty() {
             // byte-level aliases of one position of the rendered text (separators included): the high-bit twin, the
             // other-case twin of a non-letter, the neighbours in the code chart
@@ -664,6 +888,22 @@ fn stream_subtag(thorough: bool, seed: u64, out: &mut dyn Write) {
         for pos in 0..v.len() {
             for c in 0..=255u8 {
                 let mut x = v.to_vec();
+                x[pos] = c;
+                emit_input(out, &ops, &x);
+            }
+        }
+    }
+    for v in dict_spellings() {
+        emit_input(out, &ops, &v);
+        emit_input(out, &ops, &v[..v.len() - 1]);
+        for &c in b"a1-\0" {
+            let mut x = v.clone();
+            x.push(c);
+            emit_input(out, &ops, &x);
+        }
+        for pos in 0..v.len().min(12) {
+            for c in 0..=255u8 {
+                let mut x = v.clone();
                 x[pos] = c;
                 emit_input(out, &ops, &x);
             }
@@ -798,6 +1038,22 @@ fn hl(v: &[&str]) -> String {
 pub fn op_alphabet(full: bool, likely: bool) -> Vec<String> {
     let mut o: Vec<String> = vec![];
     let h = |s: &str| hex(s.as_bytes());
+    // dictionary words (source literals the baseline tree did not have) as arguments of every kind of op
+    let dstr = dict_strs();
+    let dwords: Vec<&str> = dstr.iter().map(|s| s.as_str()).take(if full { 8 } else { 3 }).collect();
+    for d in &dwords {
+        for v in [&[][..], &[*d][..], &["abc", *d][..]] {
+            o.push(format!("sk:{}:{}", h(d), hl(v)));
+            o.push(format!("sk:{}:{}", h("ca"), hl(v)));
+            o.push(format!("stf:{}:{}", h(d), hl(v)));
+            o.push(format!("stf:{}:{}", h("h0"), hl(v)));
+        }
+        for op in ["rk", "kw", "sa", "ra", "ha", "rtf", "tf", "stl", "at", "rt", "ht", "sl", "ss", "sr", "hv"] {
+            o.push(format!("{}:{}", op, h(d)));
+        }
+        o.push(format!("sv:{}", hl(&[*d])));
+        o.push(format!("sv:{}", hl(&["macos", *d])));
+    }
     let keys: &[&str] = if full { &["ca", "nu", "CA", "1a", "a1", "c", "cal", "", "c.", "\u{e9}"] } else { &["ca", "nu", "a1"] };
     let vals: &[&[&str]] = if full {
         &[&[], &["buddhist"], &["true"], &["TRUE", "abc"], &["abc", "h12"], &["ab"], &["toolongxx"], &["a-b"], &["foo", ""], &["abc", "abc"]]
@@ -874,6 +1130,7 @@ pub fn op_alphabet(full: bool, likely: bool) -> Vec<String> {
     if likely {
         o.push("mx".into());
         o.push("mn".into());
+        o.push("cd".into());
     }
     o
 }
@@ -942,10 +1199,16 @@ const MATCH_EXTS: &[&str] = &["", "u-ca-buddhist", "t-es-h0-hybrid", "x-priv", "
 
 fn product_ids() -> Vec<String> {
     let mut v = vec![];
-    for l in MATCH_LANGS {
-        for s in MATCH_SCRIPTS {
-            for r in MATCH_REGIONS {
-                for va in MATCH_VARIANTS {
+    let d = dict_strs();
+    let with = |base: &[&'static str], ok: fn(&[u8]) -> bool| -> Vec<String> {
+        base.iter().map(|s| s.to_string()).chain(d.iter().filter(|t| ok(t.as_bytes())).take(2).cloned()).collect()
+    };
+    let (langs, scripts, regions, variants) =
+        (with(MATCH_LANGS, sh_lang), with(MATCH_SCRIPTS, sh_script), with(MATCH_REGIONS, sh_region), with(MATCH_VARIANTS, sh_variant));
+    for l in &langs {
+        for s in &scripts {
+            for r in &regions {
+                for va in &variants {
                     let mut id = l.to_string();
                     for p in [s, r, va] {
                         if !p.is_empty() {
@@ -1062,6 +1325,27 @@ fn stream_rel(thorough: bool, seed: u64, out: &mut dyn Write) {
         }
     }
     let mut r = Rng::new(seed ^ 0x52454C);
+    if !dict().1.is_empty() {
+        // identifiers whose canonical text is n-1, n, n+1 bytes long (n: a size the sources mention) against that text
+        let mut r2 = Rng::new(seed ^ 0x53_495A_46);
+        for &n in &dict().1 {
+            for m in [n.saturating_sub(1), n, n + 1] {
+                for _ in 0..4 {
+                    if let Some(toks) = langid_of_len(&mut r2, m) {
+                        let canon = join(&toks.iter().collect::<Vec<_>>(), b'-');
+                        let spelled = render(&mut r2, &toks, 2);
+                        writeln!(out, "eqstr {} {}", hex(&spelled), hex(&canon)).unwrap();
+                        writeln!(out, "eqstr {} {}", hex(&spelled), hex(&canon[..canon.len() - 1])).unwrap();
+                        let mut longer = canon.clone();
+                        longer.push(b'a');
+                        writeln!(out, "eqstr {} {}", hex(&spelled), hex(&longer)).unwrap();
+                        writeln!(out, "rel {} {}", hex(&spelled), hex(&canon)).unwrap();
+                        writeln!(out, "route {} {}", hex(&spelled), m % 8).unwrap();
+                    }
+                }
+            }
+        }
+    }
     let n = if thorough { 200_000 } else { 30_000 };
     for i in 0..n {
         let a = gen_shape(&mut r, false);
@@ -1199,6 +1483,17 @@ fn universe() -> (Vec<Vec<u8>>, Vec<Vec<u8>>, Vec<Vec<u8>>) {
     }
     for x in ["ZZ", "999", "QQ"] {
         r.push(w(x));
+    }
+    for t in dict_spellings() {
+        if sh_lang(&t) {
+            l.push(t.to_ascii_lowercase());
+        } else if sh_script(&t) {
+            let mut x = t.to_ascii_lowercase();
+            x[0] = x[0].to_ascii_uppercase();
+            s.push(x);
+        } else if sh_region(&t) {
+            r.push(t.to_ascii_uppercase());
+        }
     }
     for v in [&mut l, &mut s, &mut r] {
         v.sort();
